@@ -111,3 +111,13 @@ func init() {
 		return runRandK1(e, "dev", n, 100, rcOpts{})
 	}
 }
+
+func init() {
+	campaigns["PROJDEV"] = func(e *env) error {
+		n := 60
+		if e.thorough {
+			n = 400
+		}
+		return runRandProj(e, n)
+	}
+}
